@@ -20,14 +20,17 @@ import (
 var rootNames = []string{"Search", "Compile", "MustCompile", "(*JMESPath).Search", "NewParser", "(*Parser).Parse", "NewLexer"}
 
 type analyzer struct {
-	prog     *ssa.Program
-	pkg      *ssa.Package
-	fns      []*ssa.Function // reachable package functions, sorted by name
-	entry    map[*ssa.Function]bool
-	callees  map[ssa.CallInstruction][]*ssa.Function // in-package callees per site
-	paramOrg map[*ssa.Parameter]org
-	retOrg   map[*ssa.Function][]org
-	bad      map[string]string // per-call receiver type -> why it is not per-call after all
+	prog      *ssa.Program
+	pkg       *ssa.Package
+	fns       []*ssa.Function // reachable package functions, sorted by name
+	entry     map[*ssa.Function]bool
+	callees   map[ssa.CallInstruction][]*ssa.Function // in-package callees per site
+	paramOrg  map[*ssa.Parameter]org
+	retOrg    map[*ssa.Function][]org
+	bad       map[string]string       // per-call receiver type -> why it is not per-call after all
+	entryRecv map[string]bool         // receiver types of entry-point methods
+	recvSites map[*ssa.Parameter]bool // receiver parameters with at least one in-package call site
+	recvOrg   map[*ssa.Parameter]org  // join of the receiver operands at those call sites
 }
 
 type record struct {
@@ -262,6 +265,18 @@ func (a *analyzer) fixpoint() {
 			entryRecv[a.typeName(f.Params[0].Type())] = true
 		}
 	}
+	a.entryRecv, a.recvSites, a.recvOrg = entryRecv, map[*ssa.Parameter]bool{}, map[*ssa.Parameter]org{}
+	for _, f := range a.fns {
+		instrs(f, func(in ssa.Instruction) {
+			if ci, ok := in.(ssa.CallInstruction); ok {
+				for _, callee := range a.callees[ci] {
+					if callee.Signature.Recv() != nil && len(callee.Params) > 0 {
+						a.recvSites[callee.Params[0]] = true
+					}
+				}
+			}
+		})
+	}
 	for changed := true; changed; {
 		changed = false
 		for _, f := range a.fns {
@@ -280,7 +295,8 @@ func (a *analyzer) fixpoint() {
 					}
 					tn := a.typeName(fa.X.Type())
 					st, _ := fa.X.Type().Underlying().(*types.Pointer).Elem().Underlying().(*types.Struct)
-					if sorters[tn] && a.bad[tn] == "" && st.Field(fa.Field).Name() == "items" {
+					_, isSlice := st.Field(fa.Field).Type().Underlying().(*types.Slice)
+					if a.isSorter(fa.X.Type()) && a.bad[tn] == "" && (st.Field(fa.Field).Name() == "items" || isSlice) {
 						if o := a.origin(in.Val, seenSet{}); o.o > CallLocal {
 							a.bad[tn], changed = "items initialised from "+originNames[o.o]+" "+clip(o.path, 40)+" in "+fnName(f), true
 						}
@@ -295,9 +311,15 @@ func (a *analyzer) fixpoint() {
 							if j == 0 && callee.Signature.Recv() != nil {
 								tn := a.typeName(p.Type())
 								own, _ := ops[0].(*ssa.Parameter) // forwarding one's own receiver is fine
-								if perCall[tn] && !entryRecv[tn] && a.bad[tn] == "" && (own == nil || len(f.Params) == 0 || own != f.Params[0]) {
+								if a.isPerCall(p.Type()) && !entryRecv[tn] && a.bad[tn] == "" && (own == nil || len(f.Params) == 0 || own != f.Params[0]) {
 									if o := a.origin(ops[0], seenSet{}); o.o > Fresh {
 										a.bad[tn], changed = "receiver "+clip(o.path, 40)+" in "+fnName(f)+" is "+originNames[o.o]+", not created during the call", true
+									}
+								}
+								if !a.isPerCall(p.Type()) && !entryRecv[tn] {
+									o := a.origin(ops[0], seenSet{})
+									if cur, ok := a.recvOrg[p]; !ok || o.o > cur.o {
+										a.recvOrg[p], changed = o, true
 									}
 								}
 								continue
